@@ -1,7 +1,7 @@
 """C01 - every residue is a verbatim, re-indexed copy of its force-field block.
 
 spec/FFMap.tla : P-layer PBase / PFinal (C01_Inv, Base_Inv, Layout_Inv), I-layer MatchNodes / TagExclusions / AddBlock /
-                 ApplyLinks / ApplyMods; deviation flags for the catches of DESIGN 4.1 and the findings F7 F14 F15 F16 F17.
+                 ApplyLinks / ApplyMods; deviation flags for the catches of DESIGN 4.1 and the findings F7 F14 F15 F30 F31 F32.
 S->I : TLC enumerates instance G (all connected residue graphs on <= 4 residues x names over two blocks and the two-residue
        block x first residue id 1 / 5 x force fields), S (every intra-block interaction set), M (atom-removing / retyping
        links, -mods selections); every input is rendered as real .ff and polyply .itp files and run through
@@ -18,7 +18,6 @@ from .. import ffmap_util as u
 from .. import ffmap_trace as t
 
 PROP = "C01"
-SIGS = {"F14": "F14", "F16": "F16", "F17": "F17"}
 
 
 # ------------------------------------------------------------------ S -> I
@@ -29,6 +28,8 @@ def exc_matches(exc, err):
         return exc["type"] in ("OSError", "IOError") and "match_nodes_to_blocks" in exc["site"] and "mismatch in the length" in exc["msg"]
     if err == "index":
         return exc["type"] == "IndexError" and "match_link_and_residue_atoms" in exc["site"]
+    if err == "fragindex":
+        return exc["type"] == "IndexError" and "map_to_molecule.py:add_blocks" in exc["site"]
     return False
 
 
@@ -40,7 +41,7 @@ def classify(case, obs, asis):
         e = obs["exc"]
         for a in asis:
             if a["err"] and a["fired"] and exc_matches(e, a["err"]):
-                return "known", a["fired"][0], "%s at %s" % (e["type"], e["site"])
+                return "known", a["fired"][-1], "%s at %s" % (e["type"], e["site"])
         return "violation", None, "the code raised %s (%s) at %s in stage %s: %s" % (e["type"], e["site"], e["site"], e["stage"], e["msg"][:200])
     why = u.diff_mol(exp_base, obs["base"], what="after MapToMolecule") or u.diff_mol(exp, obs["final"], what="final molecule")
     if why is None:
@@ -49,6 +50,23 @@ def classify(case, obs, asis):
         if not a["err"] and a["fired"] and u.diff_mol(a["got"], obs["final"], what="") is None:
             return "known", a["fired"][0], why
     return "violation", None, why
+
+
+def classify_itp(case, g, asis):
+    """the written .itp against PFinal (no version tags, no residue->atoms map in a file)"""
+    if "exc" in g:
+        e = g["exc"]
+        for a in asis:
+            if a["err"] and a["fired"] and exc_matches(e, a["err"]):
+                return "known", a["fired"][-1], "gen_params: %s at %s" % (e["type"], e["site"])
+        return "violation", None, "gen_params raised %s at %s: %s" % (e["type"], e["site"], e["msg"][:200])
+    d = u.diff_mol(case["exp"], g["final"], with_ver=False, gattr=False, what="written .itp", itp=True)
+    if d is None:
+        return "ok", None, ""
+    for a in asis:
+        if not a["err"] and a["fired"] and u.diff_mol(a["got"], g["final"], with_ver=False, gattr=False, what="", itp=True) is None:
+            return "known", a["fired"][-1], d
+    return "violation", None, d
 
 
 def _replay_chunk(arg):
@@ -68,14 +86,11 @@ def _replay_chunk(arg):
         verdict, sig, why = classify(case, obs, asis.get(u.case_key(inp), []))
         gp = None
         if verdict == "ok" and gp_every and ci % gp_every == 0:
+            # the same input through the real entry point (sequence .json in, .itp out); parse_json re-orders the nodes,
+            # so an order-dependent finding may show here although the processors run above did not meet it
             g = u.run_gen_params(rendered[key], inp, lay, u_wd)
-            if "exc" in g:
-                e = g["exc"]
-                verdict, why = "violation", "gen_params raised %s at %s: %s" % (e["type"], e["site"], e["msg"][:200])
-            else:
-                d = u.diff_mol(case["exp"], g["final"], with_ver=False, gattr=False, what="written .itp")
-                if d:
-                    verdict, why = "violation", d
+            verdict, sig, why = classify_itp(case, g, asis.get(u.case_key(inp), []))
+            obs = g
             gp = g
         if verdict != "ok":
             out.append((ci, fmt, verdict, sig, why, lay, obs if verdict == "violation" else None))
@@ -134,8 +149,10 @@ DEVS = [("FF_Gsmall", "unsorted", "C01_Inv", "m01: residues not sorted by residu
         ("FF_Msmall", "renumber", "C01_Inv", "F7 (repaired): atom removal renumbers all residue ids from 0"),
         ("FF_Msmall", "keepremoved", "C01_Inv", "m03: interactions of removed atoms kept"),
         ("FF_Gsmall", "f14", "C01_Inv", "F14 (open): first fragment keeps the block's residue ids"),
-        ("FF_Gsmall", "f17", "C01_Inv", "F17 (open): fragments found along depth-first tree edges only"),
-        ("FF_S", "f16", "C01_Inv", "F16 (open): block interactions with equal (section, atoms, version) collapse"),
+        ("FF_Gsmall", "f31", "C01_Inv", "F31 (open): fragments found along depth-first tree edges only"),
+        ("FF_S", "f30", "C01_Inv", "F30 (open): block interactions with equal (section, atoms, version) collapse"),
+        ("FF_X5", "f32", "C01_Inv", "F32 (open): block-copy correspondences looked up by fragment number"),
+        ("FF_Msmall", "versioninkey", "C01_Inv", "removed-node-key-equals-version (repaired): write-back tests the version number as an atom"),
         ("FF_Msmall", "modanyres", "C01_Inv", "a modification touching another residue")]
 REACH = [("FF_X4", "Reach_Frag2"), ("FF_Msmall", "Reach_Removed"), ("FF_Msmall", "Reach_Mod")]
 
